@@ -27,8 +27,15 @@ const (
 	forged = "tok-forged"
 )
 
+// clock0 is the constant value of both clocks the middleware reads (time.Now of package csrf through
+// the vtime shim, utils.Timestamp of the built-in store through the overlay clock). The clocks never
+// move; a tick of a history is a time translation of the stored data (see runState.step).
+var clock0 = time.Unix(1_900_000_000, 0)
+
+// sessIdleLong is the session IdleTimeout of the "session outlives the token" configurations.
+const sessIdleLong = 3 * idle
+
 var (
-	tickDur    = []time.Duration{idle / 2, idle + time.Second}
 	tickName   = []string{"idle/2", "idle+1s"}
 	clientName = []string{"U", "V", "X"}
 )
@@ -48,7 +55,7 @@ type cfgA struct {
 	SingleUse bool
 	Faults    int // 0 or 1 injected storage failure per history
 	Depth     int
-	Ticks     []int // indexes into tickDur this configuration may use
+	Ticks     []int // tick letters (see cfgA.tick) this configuration may use
 
 	Explicit   bool   // Config.Extractor is set explicitly (csrf.FromHeader(...), ...); otherwise the extractor comes from KeyLookup
 	Lookup     string // Config.KeyLookup as written; with Explicit it is a left-over (documented: ignored); "" = unset (not Explicit: the canonical spelling for Extractor)
@@ -65,6 +72,15 @@ type cfgA struct {
 	Layouts bool
 	Free    int // request-layout family: number of freely chosen steps after the issuing prefix
 
+	// LongSess: the session store / middleware has IdleTimeout = 3 x the CSRF IdleTimeout, so a token kept in
+	// a session expires only through Token.Expiration (the session entry itself is still alive).
+	LongSess bool
+
+	// Defaults: "fields left to their documented defaults" dimension: Config.IdleTimeout and
+	// Config.ErrorHandler are not set (documented: 30 minutes; 403 Forbidden). Ticks are relative to the
+	// effective idle timeout.
+	Defaults bool
+
 	// derived by resolve() before the search
 	CkName    string // the CSRF cookie = the cookie in which a safe request leaves the generated token (observed, not assumed)
 	TokCookie string // name of the cookie the configured extractor reads ("" if it does not read a cookie)
@@ -75,10 +91,41 @@ func (c cfgA) name() string {
 	if w := c.wiring(); w != "" {
 		n += "/" + w
 	}
+	if c.LongSess {
+		n += "/session-idle=3x"
+	}
 	if c.Layouts {
 		n += "/request-layouts/ctx=" + c.Ctx
 	}
 	return n
+}
+
+func (c cfgA) sessBackend() bool { return c.Backend == "session-direct" || c.Backend == "session-mw" }
+
+func (c cfgA) sessIdle() time.Duration {
+	if c.LongSess {
+		return sessIdleLong
+	}
+	return idle
+}
+
+// docDefaultIdle is the documented default of Config.IdleTimeout.
+const docDefaultIdle = 30 * time.Minute
+
+// effIdle is the lifetime of a token under this configuration according to the documentation.
+func (c cfgA) effIdle() time.Duration {
+	if c.Defaults {
+		return docDefaultIdle
+	}
+	return idle
+}
+
+// tick is the duration of tick letter i: half the effective idle timeout / one second more than it.
+func (c cfgA) tick(i int8) time.Duration {
+	if i == 0 {
+		return c.effIdle() / 2
+	}
+	return c.effIdle() + time.Second
 }
 
 type client struct{ Jar, Cur, Prev, Sid string }
@@ -134,6 +181,7 @@ type sut struct {
 	csrfErr string
 	delErr  string
 	fctx    fasthttp.RequestCtx
+	hd      *csrf.Handler // the middleware's Handler, captured from the context of a passing request (built-in store: ageing and inspection)
 }
 
 var lookups = map[string]string{"header": "header:X-Csrf-Token", "form": "form:_csrf", "query": "query:_csrf", "param": "param:_csrf", "cookie": "cookie:csrf_"}
@@ -155,6 +203,9 @@ func newSut(c cfgA) *sut {
 			return fiber.ErrForbidden
 		},
 	}
+	if c.Defaults {
+		cc.IdleTimeout, cc.ErrorHandler = 0, nil
+	}
 	c.apply(&cc)
 	sgen := func() string { s.nSess++; return fmt.Sprintf("sid-%04d", s.nSess) }
 	app := fiber.New()
@@ -165,12 +216,14 @@ func newSut(c cfgA) *sut {
 	case "builtin":
 	case "session-mw":
 		s.st = newVstore()
-		mw, store := session.NewWithStore(session.Config{Storage: s.st, KeyGenerator: sgen, IdleTimeout: idle})
+		s.st.sessions = true
+		mw, store := session.NewWithStore(session.Config{Storage: s.st, KeyGenerator: sgen, IdleTimeout: c.sessIdle()})
 		app.Use(mw)
 		cc.Session = store
 	case "session-direct":
 		s.st = newVstore()
-		cc.Session = session.NewStore(session.Config{Storage: s.st, KeyGenerator: sgen, IdleTimeout: idle})
+		s.st.sessions = true
+		cc.Session = session.NewStore(session.Config{Storage: s.st, KeyGenerator: sgen, IdleTimeout: c.sessIdle()})
 	default:
 		core.Fatal("unknown backend %q", c.Backend)
 	}
@@ -182,6 +235,9 @@ func newSut(c cfgA) *sut {
 	}
 	protected := func(ctx fiber.Ctx) error {
 		s.reached = true
+		if h := csrf.HandlerFromContext(ctx); h != nil {
+			s.hd = h
+		}
 		if ctx.Get("X-Op") == "del" {
 			hd := csrf.HandlerFromContext(ctx)
 			if hd == nil {
@@ -334,13 +390,14 @@ func (s *sut) do(method, tok, ck, sid string, del bool, failAt int, lay layout) 
 // reference model: set of live tokens with expiry
 
 type model struct {
+	idle time.Duration
 	now  time.Duration
 	live map[string]time.Duration
 	dead map[string]string
 }
 
 func (m *model) isLive(t string) bool { e, ok := m.live[t]; return ok && e > m.now }
-func (m *model) touch(t string)       { m.live[t] = m.now + idle }
+func (m *model) touch(t string)       { m.live[t] = m.now + m.idle }
 func (m *model) kill(t, why string) {
 	if _, ok := m.live[t]; ok {
 		delete(m.live, t)
@@ -389,7 +446,7 @@ type runState struct {
 }
 
 func newRunState(c cfgA) *runState {
-	return &runState{cfg: c, s: newSut(c), m: model{live: map[string]time.Duration{}, dead: map[string]string{}}}
+	return &runState{cfg: c, s: newSut(c), m: model{idle: c.effIdle(), live: map[string]time.Duration{}, dead: map[string]string{}}}
 }
 
 type stepInfo struct {
@@ -418,9 +475,18 @@ func (rs *runState) learn(c *client, ob obsA) {
 func (rs *runState) step(o opA) stepInfo {
 	var si stepInfo
 	if o.Kind == 'T' {
-		d := tickDur[o.Tick]
+		// time passes by d: the injected storage has its own virtual clock; the clocks the middleware reads
+		// itself are constants, so what it stored with an absolute time (Token.Expiration inside a session
+		// blob, the expiry of an entry of the built-in store) is moved d into the past instead
+		d := rs.cfg.tick(o.Tick)
 		if rs.s.st != nil {
 			rs.s.st.now += d
+			if rs.s.st.sessions {
+				rs.s.st.ageSessions(d)
+			}
+		}
+		if rs.cfg.Backend == "builtin" && rs.s.hd != nil {
+			rs.s.hd.VerifAge(uint32(d / time.Second))
 		}
 		rs.m.tick(d)
 		return si
@@ -461,18 +527,50 @@ func (rs *runState) step(o opA) stepInfo {
 	return si
 }
 
-// sessionToken decodes a session blob and returns the CSRF token key stored in it ("" if none).
-func sessionToken(blob []byte) string {
+// sessionToken decodes a session blob and returns the CSRF token key stored in it ("" if none) and the
+// whole seconds (rounded) until its Token.Expiration as seen at clock0 (-1: expired).
+func sessionToken(blob []byte) (string, int64) {
 	var m map[any]any
 	if err := gob.NewDecoder(bytes.NewReader(blob)).Decode(&m); err != nil {
-		return "?undecodable"
+		return "?undecodable", -1
 	}
 	for _, v := range m {
 		if t, ok := v.(csrf.Token); ok {
-			return t.Key
+			left := t.Expiration.Sub(clock0)
+			if left <= 0 {
+				return t.Key, -1
+			}
+			return t.Key, int64((left + time.Second/2) / time.Second)
 		}
 	}
-	return ""
+	return "", -1
+}
+
+// ageSessions moves the Token.Expiration of every CSRF token kept in a stored session d (plus an
+// instant: a request never happens exactly on an expiry boundary) into the past.
+func (s *vstore) ageSessions(d time.Duration) {
+	for i := range s.ents {
+		var m map[any]any
+		if err := gob.NewDecoder(bytes.NewReader(s.ents[i].val)).Decode(&m); err != nil {
+			continue
+		}
+		changed := false
+		for k, v := range m {
+			if t, ok := v.(csrf.Token); ok {
+				t.Expiration = t.Expiration.Add(-d - time.Nanosecond)
+				m[k] = t
+				changed = true
+			}
+		}
+		if !changed {
+			continue
+		}
+		var buf bytes.Buffer
+		if err := gob.NewEncoder(&buf).Encode(&m); err != nil {
+			core.Fatal("re-encoding an aged session: %v", err)
+		}
+		s.ents[i].val = buf.Bytes()
+	}
 }
 
 // key is the canonical state key: client-held values, storage contents and model live set, with
@@ -510,6 +608,7 @@ func (rs *runState) key() string {
 	type ent struct {
 		id, tok  string
 		rel, mrl time.Duration
+		tleft    int64 // session backends: seconds until the stored Token.Expiration (-1 expired / none)
 	}
 	mrel := func(t string) time.Duration {
 		if rs.m.isLive(t) {
@@ -528,10 +627,19 @@ func (rs *runState) key() string {
 			if rs.cfg.Backend == "storage" {
 				ents = append(ents, ent{id: "", tok: k, rel: rel, mrl: mrel(k)})
 			} else {
-				tk := sessionToken(e.val)
-				ents = append(ents, ent{id: k, tok: tk, rel: rel, mrl: mrel(tk)})
+				tk, left := sessionToken(e.val)
+				ents = append(ents, ent{id: k, tok: tk, rel: rel, mrl: mrel(tk), tleft: left})
 			}
 		}
+	} else if rs.s.hd != nil {
+		// the middleware's own in-memory store
+		for _, e := range rs.s.hd.VerifDump() {
+			if !e.Forever && e.Left <= 0 {
+				continue
+			}
+			ents = append(ents, ent{id: "", tok: e.Key, rel: time.Duration(e.Left) * time.Second, mrl: mrel(e.Key)})
+		}
+		sort.SliceStable(ents, func(i, j int) bool { return ents[i].tok < ents[j].tok })
 	}
 	known := func(e ent) bool {
 		if e.id != "" {
@@ -552,6 +660,9 @@ func (rs *runState) key() string {
 		if ents[i].mrl != ents[j].mrl {
 			return ents[i].mrl < ents[j].mrl
 		}
+		if ents[i].tleft != ents[j].tleft {
+			return ents[i].tleft < ents[j].tleft
+		}
 		if ents[i].id != ents[j].id {
 			return ents[i].id < ents[j].id
 		}
@@ -559,7 +670,11 @@ func (rs *runState) key() string {
 	})
 	var parts []string
 	for _, e := range ents {
-		parts = append(parts, fmt.Sprintf("%s:%s@%d", rsid(e.id), rt(e.tok), e.rel/time.Second))
+		p := fmt.Sprintf("%s:%s@%d", rsid(e.id), rt(e.tok), e.rel/time.Second)
+		if e.id != "" && e.tok != "" {
+			p += fmt.Sprintf("/%d", e.tleft)
+		}
+		parts = append(parts, p)
 	}
 	sort.Strings(parts)
 	b.WriteString("st[" + strings.Join(parts, " ") + "]")
@@ -674,7 +789,7 @@ func violatesOnFresh(cfg cfgA, hist []opA, sig string) bool {
 }
 
 func (rs *runState) caseOf(hist []opA, extra string) map[string]any {
-	c := map[string]any{"harness": "A", "config": rs.cfg.name(), "csrf_config": rs.cfg.literal(), "unsafe_request_shape": rs.cfg.requestShape(), "idle_timeout": idle.String(), "history": histStrings(hist),
+	c := map[string]any{"harness": "A", "config": rs.cfg.name(), "csrf_config": rs.cfg.literal(), "unsafe_request_shape": rs.cfg.requestShape(), "idle_timeout": rs.cfg.effIdle().String(), "history": histStrings(hist),
 		"request_ctx": rs.cfg.ctxText()}
 	if extra != "" {
 		c["then"] = extra
@@ -1078,8 +1193,28 @@ func runA(r *core.Run, col *collector, samples *[]any, only string) map[string]a
 			)
 		}
 	}
-	for _, su := range []bool{false, true} {
-		cfgs = append(cfgs, cfgA{Extractor: "header", Backend: "builtin", SingleUse: su, Faults: 0, Depth: d(3, 3)})
+	// the middleware's own in-memory store (no Storage configured: the default), with ticks (time translation
+	// of its entries, see step)
+	for _, ext := range []string{"header", "cookie"} {
+		for _, su := range []bool{false, true} {
+			cfgs = append(cfgs, cfgA{Extractor: ext, Backend: "builtin", SingleUse: su, Faults: 0, Depth: d(4, 5), Ticks: all})
+		}
+	}
+	// fields left to their documented defaults (IdleTimeout 30 minutes, ErrorHandler 403)
+	for _, be := range []string{"storage", "builtin"} {
+		for _, su := range []bool{false, true} {
+			cfgs = append(cfgs, cfgA{Extractor: "header", Backend: be, SingleUse: su, Faults: 0, Depth: d(3, 5), Ticks: all, Defaults: true})
+		}
+	}
+	// the session outlives the token (session IdleTimeout = 3 x CSRF IdleTimeout): a token kept in a session
+	// expires only through its own Token.Expiration, on both paths of the session manager (session taken from
+	// the request context / fetched from the store)
+	for _, ext := range []string{"header", "cookie"} {
+		for _, su := range []bool{false, true} {
+			for _, be := range []string{"session-direct", "session-mw"} {
+				cfgs = append(cfgs, cfgA{Extractor: ext, Backend: be, SingleUse: su, Faults: 0, Depth: d(map[string]int{"header": 4, "cookie": 3}[ext], 6), Ticks: all, LongSess: true})
+			}
+		}
 	}
 	nCanonical := len(cfgs)
 	// redundant / conflicting fields (harness_a_cfg.go)
@@ -1166,12 +1301,13 @@ func runA(r *core.Run, col *collector, samples *[]any, only string) map[string]a
 		"bounds": map[string]any{
 			"clients": clientName, "configs": len(cfgs), "idle_timeout": idle.String(), "ticks": tickName,
 			"depth_storage_nofault": d(5, 7), "depth_storage_nofault_form_query_param": d(4, 7), "depth_storage_fault_header": d(4, 5), "depth_storage_fault_others": d(3, 5),
-			"depth_session": d(4, 6), "depth_session_form": d(3, 6), "depth_session_fault": d(3, 4), "depth_builtin": 3,
+			"depth_session": d(4, 6), "depth_session_form": d(3, 6), "depth_session_fault": d(3, 4), "depth_builtin": d(4, 5),
+			"depth_session_outliving_token_header": d(4, 6), "depth_session_outliving_token_cookie": d(3, 6), "session_idle_timeout_outliving": sessIdleLong.String(),
 			"max_injected_failures_per_history": 1,
 			"canonical_configs":                 nCanonical, "redundant_conflicting_field_configs": len(cfgs) - nCanonical, "depth_redundant_conflicting": d(3, 4),
 			"leftover_keylookups_next_to_explicit_extractor": leftoverLookups, "explicit_extractors": []string{"header", "form", "query", "param", "cookie (the CSRF cookie)", "cookie2 (another cookie)"},
 			"cookie_names": []string{"unset", "csrf_ (explicit default)", "xsrf"}, "other_ignored_fields": []string{"Storage next to Session (decoy answering every Get)", "CookieSessionOnly next to IdleTimeout"},
 		},
-		"time_sources": "storage backend: expiry decided only by Storage.Get/Set(exp) -> owned by the injected storage's virtual clock; the cookie Expires attribute uses time.Now() (client side, not judged). session backend: sessionManager stamps Token.Expiration with time.Now() and compares with time.Now() (wall clock, not ownable) - only the session entry's storage expiry is owned, therefore session-mw configurations tick by idle+1s only. built-in memory storage: utils.Timestamp() wall clock - no ticks",
+		"time_sources": "storage backend: expiry decided only by Storage.Get/Set(exp) -> owned by the injected storage's virtual clock. session backend: sessionManager stamps Token.Expiration with time.Now() and compares with time.Now(): package csrf reads the vtime shim (overlay swapdir), held constant; a tick moves the Token.Expiration inside every stored session blob into the past by the tick plus 1ns (gob decode / encode), next to the virtual clock of the injected storage that decides the session entry's own expiry; in the session-idle=3x configurations the session outlives the token, so Token.Expiration alone decides. built-in memory store: utils.Timestamp() through the overlay clock, held constant; a tick moves the expiry of every entry into the past (overlay accessor VerifAge). the cookie Expires attribute is computed from the same constant clock",
 	}
 }
